@@ -3,8 +3,9 @@
 //! Case line:  `zone <flag> <origin|-> <text-hex> [<expected-origin> <expected-records>]`
 //!   flag `m` : compare with the Lean model if the text is inside the modelled fragment (decided
 //!              from the text alone, see `model_applicable`);
-//!   flag `e` : as `m`, but backslash-digit escapes are allowed (the author of the line asserts
-//!              that no escape puts a character >= 128 into a *name*);
+//!   flag `e` : as `m`, but backslash-digit escapes are allowed when no quoted string stands inside
+//!              parentheses (the author of the line asserts that no escape puts a character >= 128
+//!              into a *name*; true of the printer's output, whose escapes sit in quoted strings);
 //!   flag `i` : implementation-vs-oracle only.
 //!   expected-records : `-` no expectation (malformed stream: only "Ok or Err, never panic/hang"),
 //!              `0` the empty set, else `rec|rec|…` with rec = `owner/type/class/ttl/rdata`,
@@ -119,8 +120,12 @@ fn model_applicable(flag: &str, text: &str) -> bool {
     if low.contains("xn--") {
         return false;
     }
-    if flag != "e" && has_backslash_digit(text) {
-        return false;
+    if has_backslash_digit(text) {
+        // with a quoted string inside parentheses (not recognised by hickory) the pieces of the
+        // string can end up anywhere, e.g. as an owner name on the next line
+        if flag != "e" || scan(text.as_bytes()).quote_inside_list {
+            return false;
+        }
     }
     if low.contains("$include") && text.contains('/') {
         return false;
